@@ -1,9 +1,9 @@
 (* C04 oracle: extracted ownership model and exact PolyTree checker.  Parsing/printing only.
    Commands (one per line):
-   OPS n k (op args)*        same syntax and output format as harness/cx_owner OPS; " | HANG" if the model runs out of
+   OPS n k (op args)*        same syntax and output format as harness/cx_owner OPS (K g i j: g = guard_pointless); " | HANG" if the model runs out of
                              fuel (the C++ loop would not terminate)
    MTREE v N n (owner has_pts is_open bounds_empty nsplits splits...)*n I <digits> B <digits>
-                             (v = shape of RecursiveCheckOwners: bit 0 own_first, bit 1 mark_owner, see model/Owner.v; then
+                             (v = shape of the owner search: bit 0 own_first, bit 1 mark_chain, bit 2 guard_pointless, see model/Owner.v; then
                              the state part of harness/cx_owner TREE's answer) -> "T m (idx parent)*m" in preorder,
                              or FUEL / NULLDEREF
    CHECK rev cnt (depth isHole nChildren <path>)*cnt <closed paths> <open paths> <tree-run open paths>
@@ -49,9 +49,9 @@ let handle t =
                 OpValidAssign (i, j)
             | "A" -> let i = nn () in let j = nn () in OpAddSplit (i, j)
             | "M" -> let i = nn () in let j = nn () in OpMoveSplits (i, j)
-            | "K" -> let i = nn () in let j = nn () in
+            | "K" -> let g = next_bool t in let i = nn () in let j = nn () in
                 let sp = (List.nth !m (int_of_nat j)).splits in
-                (match check_split_owner (fun _ _ -> false) (fun _ _ -> false) (nat_of_int 200) !m i sp with
+                (match check_split_owner (fun _ _ -> false) (fun _ _ -> false) g (nat_of_int 200) !m i sp with
                  | Some (m', b) -> m := m'; ans := show_bool b | None -> raise Exit);
                 OpPts (i, (List.nth !m (int_of_nat i)).has_pts)       (* state already updated *)
             | "G" -> let i = nn () in
@@ -66,7 +66,7 @@ let handle t =
       Buffer.contents buf
   | "MTREE" ->
       let v = next_int t in
-      let own_first = (v land 1) <> 0 and mark_owner = (v land 2) <> 0 in
+      let own_first = (v land 1) <> 0 and mark_chain = (v land 2) <> 0 and guard = (v land 4) <> 0 in
       let _ = next t in                       (* N *)
       let n = next_int t in
       let opens = Array.make (max n 1) false and bemp = Array.make (max n 1) false in
@@ -80,7 +80,7 @@ let handle t =
         if a < n && b < n && String.length s = n * n then s.[a * n + b] = '1' else false in
       let arr a i = let k = int_of_nat i in if k < n then a.(k) else false in
       let fuel = nat_of_int (4 * (n + 2) * (n + 2)) in
-      (match build_tree (tbl istr) (tbl bstr) (arr bemp) (arr opens) own_first mark_owner fuel m with
+      (match build_tree (tbl istr) (tbl bstr) (arr bemp) (arr opens) guard own_first mark_chain fuel m with
        | None -> "FUEL"
        | Some None -> "NULLDEREF"
        | Some (Some (_, tr)) ->
